@@ -29,6 +29,15 @@ BLOB_NODE_STYLE = {"shape": "box", "fillcolor": "#E0E0E0", "style": "filled"}
 EVAL_NODE_STYLE = {"shape": "box", "fillcolor": "#90EE90", "style": "filled"}
 
 
+
+def _dot_id(path: object) -> str:
+    """
+    The identifier of the node of a path in the dot language. It is always quoted: in a bare name a colon separates
+    the node from a port ('/x:a' would be the node '/x'), and other characters are not allowed at all.
+    """
+    escaped = str(path).replace("\\", "\\\\").replace('"', '\\"')
+    return f'"{escaped}"'
+
 def build_graph(
     fis: FunctionInteractions,
     present_blobs: Optional[Set[PyHash]],
@@ -43,10 +52,12 @@ def build_graph(
             style = BLOB_NODE_STYLE
         if present_blobs:
             style = BLOB_NODE_STYLE if n.node_hash in present_blobs else EVAL_NODE_STYLE
-        g.add_node(pydot.Node(name=str(n.path), **style))
+        g.add_node(pydot.Node(name=_dot_id(n.path), **style))
     for e in s.deps:
         style = _edge_styles[e.edge_type]
-        g.add_edge(pydot.Edge(src=str(e.from_path), dst=str(e.to_path), **style))
+        g.add_edge(
+            pydot.Edge(src=_dot_id(e.from_path), dst=_dot_id(e.to_path), **style)
+        )
     return g
 
 
